@@ -132,6 +132,33 @@ def boundary_molecules(rng, n_random, tier='quick'):
         out.append(('ct-shared', m))
         for _ in range(1 if tier == 'quick' else 4):
             out.append(('ct-shared', corpus.renumber(m, rng)))
+    # EXHAUSTIVE small space: every labelled simple graph on 2..3 atoms (quick: orders 1, 2, 8) resp. 2..4 atoms (thorough:
+    # all five orders up to 3 atoms, orders 1, 2 on 4 atoms), bonds inserted in a shuffled order, hetero atom at position 1
+    def small_space(nmax, orders_by_n):
+        for na in range(2, nmax + 1):
+            pairs = list(itertools.combinations(range(1, na + 1), 2))
+            for mask in range(1, 1 << len(pairs)):
+                edges = [pq for i, pq in enumerate(pairs) if mask >> i & 1]
+                for ords in itertools.product(orders_by_n[na], repeat=len(edges)):
+                    mm = MoleculeContainer()
+                    for i in range(na):
+                        mm.add_atom('N' if i == 0 else 'C', _skip_calculation=True)
+                    eo = list(zip(edges, ords))
+                    rng.shuffle(eo)
+                    for (p1, q1), o in eo:
+                        if rng.random() < .5:
+                            p1, q1 = q1, p1
+                        mm.add_bond(p1, q1, o, _skip_calculation=True)
+                    try:
+                        mm.fix_structure()
+                        mstr(mm)
+                    except Exception:
+                        continue
+                    yield mm
+    if tier == 'quick':
+        out.extend(('small', mm) for mm in small_space(3, {2: (1, 2, 3, 4, 8), 3: (1, 2, 8)}))
+    else:
+        out.extend(('small', mm) for mm in small_space(4, {2: (1, 2, 3, 4, 8), 3: (1, 2, 3, 4, 8), 4: (1, 2)}))
     # atom count above 255: the 12 bit count straddles two header bytes
     m = MoleculeContainer()
     for i in range(300):
@@ -414,6 +441,103 @@ Definition mc_unpack_is (data : list Z) (g : mol) (d : list (Z * list Z)) (size 
         ck.unchecked('correspondence PackStereo model vs MoleculeContainer.pack/unpack Python side', log[-1500:], [repr(meta[i]) for i in failing[:20]])
     if paths_changed:
         ck.unchecked('stereogenic cumulene paths change in the round trip', str(paths_changed[:10]))
+    return ok and not failing
+
+
+def trace_changes(func, args, watch_key, watch_vals, final=()):
+    """run func(*args) under sys.settrace; whenever the local `watch_key` of the frame of func changes, record the tuple of
+    the locals `watch_vals`; at return also the locals named in `final`.  Works because the transpiled .pyx functions are
+    plain Python with the C variables as locals"""
+    import sys
+    code = func.__code__
+    states, last, fin = [], [None], {}
+
+    def val(v):
+        try:
+            return int(v)
+        except Exception:
+            return -1
+
+    def tracer(frame, event, arg):
+        if frame.f_code is not code:
+            return None
+        if event in ('line', 'return'):
+            loc = frame.f_locals
+            if watch_key in loc:
+                cur = val(loc[watch_key])
+                if last[0] is not None and cur != last[0]:
+                    states.append(tuple(val(loc.get(k, -1)) for k in watch_vals))
+                last[0] = cur
+            if event == 'return':
+                for k in final:
+                    if k in loc:
+                        fin[k] = [val(x) for x in getattr(loc[k], 'a', []) if type(x) is int]
+        return tracer
+    old = sys.gettrace()
+    sys.settrace(tracer)
+    try:
+        res = func(*args)
+    finally:
+        sys.settrace(old)
+    return res, states, fin
+
+
+def corr_states(ck, mods, mols):
+    """INTERMEDIATE STATES of the two bit-packing state machines, read from the running transpiled code with a tracer:
+    the writer's 8-state order buffer (s, buffer_o) after every bond, its connection buffer (b, buffer_b) after every
+    neighbour, the reader's 3-state order buffer (s, buffer_b) after every byte, and the reader's flat `orders` and
+    `connections` arrays -- against the step functions of the model folded over the same inputs"""
+    pk, up = mods['pack'], mods['unpack']
+    cases, meta = [], []
+    n = 0
+    for kind, m in mols:
+        if kind == 'element' or len(m) > 80 or (ck.tier == 'quick' and n >= 120):
+            continue
+        n += 1
+        ck.case(('states', kind, mstr(m), tuple(m._atoms)), nontrivial=len(m) > 1)
+        ck.count('states:molecules')
+        data, ostates, _ = trace_changes(pk.pack, (m,), 's', ('s', 'buffer_o'))
+        _, cstates, _ = trace_changes(pk.pack, (m,), 'b', ('b', 'buffer_b'))
+        data = bytes(data)
+        pm = pmol_term(m, data)
+        zz = lambda l: lst([tup(zraw(a), zraw(c)) for a, c in l])
+        cases.append(f'ostates_ok {pm} {zz(ostates)}')
+        meta.append(('writer-order-states', kind, mstr(m)))
+        cases.append(f'cstates_ok {pm} {zz(cstates)}')
+        meta.append(('writer-conn-states', kind, mstr(m)))
+        _, rstates, fin = trace_changes(up.unpack, (data,), 's', ('s', 'buffer_b'), final=('orders', 'connections'))
+        ac = len(m)
+        bc = m.bonds_count
+        ob = list(data[4 + 9 * ac + 3 * bc: 4 + 9 * ac + 3 * bc + (3 * bc + 7) // 8])
+        cases.append(f'rstates_ok {lst(ob, zraw)} {zz(rstates)} {lst(fin.get("orders", []), zraw)}')
+        meta.append(('reader-order-states', kind, mstr(m)))
+        cases.append(f'conns_ok {lst(list(data), zraw)} {bc} {4 + 9 * ac} {lst(fin.get("connections", []), zraw)}')
+        meta.append(('reader-connections', kind, mstr(m)))
+    extra = '''Definition zz_eqb (x y : Z * Z) : bool := (fst x =? fst y) && (snd x =? snd y).
+Fixpoint ostates (st : Z * Z) (os : list Z) : list (Z * Z) :=
+  match os with nil => nil | o :: r => let st' := fst (order_step st o) in st' :: ostates st' r end.
+Fixpoint cstates (st : bool * Z) (ms : list Z) : list (Z * Z) :=
+  match ms with nil => nil | x :: r => let st' := fst (conn_step st x) in ((if fst st' then 1 else 0), snd st') :: cstates st' r end.
+Fixpoint rstates (st : Z * Z) (bs : list Z) : list (Z * Z) :=
+  match bs with nil => nil | a :: r => let st' := fst (order_read_step st a) in st' :: rstates st' r end.
+Definition ostates_ok (m : pmol) (l : list (Z * Z)) : bool :=
+  list_eqb zz_eqb (ostates (0, 0) (fwd_orders (mol_fwd nil (pm_atoms m)))) l.
+Definition cstates_ok (m : pmol) (l : list (Z * Z)) : bool := list_eqb zz_eqb (cstates (true, 0) (mol_conns (pm_atoms m))) l.
+Definition rstates_ok (ob : list Z) (l : list (Z * Z)) (orders : list Z) : bool :=
+  list_eqb zz_eqb (rstates (0, 0) ob) l && list_eqb Z.eqb (read_orders_v2 ob (0, 0)) orders.
+Definition conns_ok (data : list Z) (bc sh : Z) (conns : list Z) : bool :=
+  match read_conns data (Z.to_nat bc) sh with Some c => list_eqb Z.eqb c conns | None => match conns with nil => true | _ => false end end.
+'''
+    ok, failing, log = coqcases.run_cases('c10s', 'Pack PackSpec', cases, extra=extra, shard=120)
+    ck.oblige('correspondence on INTERMEDIATE STATES: order / connection buffers of the writer after every step, order buffer of the reader after every byte, the '
+              'reader\'s orders and connections arrays == the step functions of the Coq model', ok and not failing, 'correspondence', log or str([meta[i] for i in failing[:5]]))
+    ck.extra['correspondence_cases'] = ck.extra.get('correspondence_cases', 0) + len(cases)
+    if not ok or failing:
+        bad = {(meta[i][1], meta[i][2]) for i in failing}
+        for kind, m in mols:
+            if (kind, mstr(m)) in bad:
+                check_molecule(ck, kind, m, tag='-directed')
+        ck.unchecked('correspondence of the intermediate states of the codecs', log[-1500:], [repr(meta[i]) for i in failing[:20]])
     return ok and not failing
 
 
@@ -1024,7 +1148,7 @@ def run(ck):
                         'half-float coordinates, a 4095-atom pack, reference packs vs lipophilicity.csv through RDKit; after a correspondence failure the same oracles run on the '
                         'disagreeing molecules and renumbered variants')
     t_start = __import__('time').time()
-    proved = common.standard_proof_steps(ck, translators=['elements'])
+    proved = common.standard_proof_steps(ck, translators=['elements', 'packspec'])
     rng = random.Random(ck.seed)
     try:
         import pyx2py
@@ -1043,6 +1167,8 @@ def run(ck):
     timing['generate'] = round(time.time() - t0, 1); t0 = time.time()
     corr(ck, mods['unpack'], mols)
     timing['corr_molecules'] = round(time.time() - t0, 1); t0 = time.time()
+    corr_states(ck, mods, mols)
+    timing['corr_states'] = round(time.time() - t0, 1); t0 = time.time()
     corr_api(ck, mols)
     timing['corr_api'] = round(time.time() - t0, 1); t0 = time.time()
     corr_malformed(ck, mods['unpack'], mols, rng)
